@@ -100,6 +100,13 @@ CHECKS['C04'] = dict(
     text='(1) At every state within depth 2 (thorough 3) of every seed with all mutators enabled (so the shapes node erasure leaves behind arise: (bvand), (declare-const x), (forall), datatypes without constructors) everything ddSMT runs outside an exception guard in its main process is executed and must not raise: auto_detect_theories, collect_information, counters, reduplicate, pass construction, all four renderers and re-parsing their output, Producer.generate for every pass, TaskGenerator for every ddmin mutator at every granularity (52 k states quick); on every 7th state the tasks of the full producer must equal the union of what each mutator yields alone (containment of failures). (2) All ill-formed shapes head x arity 0..2 (thorough 3) x 11 child kinds for 64 heads in 4 contexts (35 k scripts). (3) Real runs of bin/ddsmt and python -m ddsmt: 12 completion / usage-error cases and SIGINT to the process group at the 1st/3rd/6th test for both strategies: exit status 0 iff minimisation completed, no traceback, exactly one diagnostic line for usage errors, temporary directory gone.',
     note=GRAPH_NOTE + ' The list of unguarded code paths was read off cli.py and the strategy modules (ddv/checks/c04.py).', design='3/C04')
 
+CHECKS['C16'] = dict(
+    level='exploration', engine='ENUM',
+    technique='bounded-exhaustive enumeration of well-sorted terms from an independent operator table, checked at every term position against the generator\'s typing',
+    text='All 3 639 well-sorted terms of depth <=1 over an operator table written from the SMT-LIB theory documents (Core, Ints, Reals, FixedSizeBitVectors with widths 1/2/4/8 and every indexed operator, FloatingPoint in both sort spellings, Strings incl. RegLan, ArraysEx, a datatype, uninterpreted sort and functions; all combinations of up to 3 atoms per argument incl. every constant notation) are embedded asserted, let-bound, under a quantifier and as define-fun body, and all 197 400 depth-2 terms asserted (thorough: all four contexts); after the real collect_information every term position (1.4 M) must have get_sort in {None, actual sort} and get_bv_width in {-1, actual width}. Consumers: every default constant must check to its sort with the independent sort checker, and get_variables_with_sort must only offer 0-ary symbols of that sort.',
+    note='Trusted: operator table and sort checker ddv/typed.py (self-tested against each other). Numerals only occur in Int positions and decimals in Real positions; every symbol is bound once.',
+    design='3/C16')
+
 ENGINES = [
     dict(name='GRAPH', path='ddv/graph.py', serves_properties=['C03', 'C04', 'C15'],
          kind_free_text='explicit-state breadth-first search of the rewrite graph (real mutators as transition relation), SCC detection, per-call work meter'),
